@@ -340,7 +340,10 @@ func c15Run(t *testing.T, out *vfh.Out, k int, rs []netip.Prefix) {
 	lt := time.Duration(11+k%9) * time.Second
 	c := new(vfh.Toks).S("wr").N(int(pref)).I(int64(lt)).N(len(rs))
 	for i, p := range rs {
-		routes[i] = system.Route{Prefix: p, Index: 1, Preference: ndp.Medium}
+		// the interface index and the kernel's preference of a dump entry are immaterial to the
+		// property (one option per distinct covering prefix): vary them, so that the same prefix
+		// also occurs with different values
+		routes[i] = system.Route{Prefix: p, Index: 1 + (i*7+k)%3, Preference: []ndp.Preference{ndp.Medium, ndp.Low, ndp.High}[(i+k/2)%3]}
 		c.Prefix(p)
 	}
 	rt := &Route{Auto: true, Prefix: mp("::/0"), Preference: pref, Lifetime: lt,
